@@ -288,6 +288,12 @@ class BundleFlattener(ElabPass):
                 msg += f"Has Signals `{list(flat.signals.keys())}`, "
                 msg += f"but no `{path}`."
                 self.fail(msg)
+            if flat_port.name in inst.conns:
+                # Connected before its port existed: the target had no port of that name, only
+                # the bundle-valued `portname`. (Arrays and instance bundles get no earlier check.)
+                msg = f"Connection to non-existent Port `{flat_port.name}` "
+                msg += f"on Instance `{inst.name}`, which clashes with `{path}` of `{portname}`"
+                self.fail(msg)
             inst.connect(flat_port.name, flat.signals[path])
 
         # And the reverse: everything the connection brings along must have somewhere to go.
